@@ -16,6 +16,7 @@ RULE = ("grid: tick period (binary-exact and decimal) x timeout T x repeat N on 
         "2 ticks, optionally an auxiliary -- plain or a clone `as mine` / `as k` -- with clock clauses of its own under one of the "
         "frames, and a second use of the same framer: a second clone alive beside the first, or the same original under the "
         "next frame); distinct = distinct program text; non-trivial = at least 2 transitions taken and 5 evaluations observed")
+RULE = __import__("vf.core", fromlist=["rule_add"]).rule_add(RULE, 'also a one-shot aux (`done me`), a redundant `start` bid by a second framer while the framer runs, and a recorder of `recurred` compared with the completed iterations')
 META = {"engine": "A floscript", "technique": "runtime trace monitor vs exact-rational clock model",
         "level_text": "At every observed evaluation the recorded elapsed/recurred are compared with store-time/iterations since the last "
                       "outline change, and every timeout/repeat transition tick with the first evaluation at which the exact clock reaches it.",
